@@ -802,6 +802,18 @@ def run_decomp(kind, shape, spec, seed, _spy=None, **kw):
         if kw.get("driver") == "sampled":        # tensor_ring_als_sampled: same validator, same ring of cores (Model: tensor_ring_als)
             out = D.tensor_ring_als_sampled(X, spec, kw.get("n_samples", 8), n_iter_max=kw.get("n_iter_max", 1), random_state=seed,
                                             uniform_sampling=kw.get("uniform", False))
+        elif kw.get("loop"):
+            # round 8: iteration cap x tol x callback (stops after sweep cb_stop; 99 = present, never stops) x solver, the lstsq / solve calls logged by _spy
+            answers, cb = [], None
+            if kw.get("cb_stop") is not None:
+                def cb(tr_, err_, _a=answers, _k=kw["cb_stop"]):
+                    _a.append(len(_a) - 1 >= _k)          # invocation 0 precedes the loop (its answer is not used by the driver)
+                    return _a[-1]
+            if _spy is not None:
+                _spy.answers = answers
+            with _ctx:
+                out = D.tensor_ring_als(X, spec, n_iter_max=kw.get("n_iter_max", 1), tol=kw.get("tol", 1e-6), random_state=seed,
+                                        ls_solve=kw.get("ls_solve", "lstsq"), callback=cb)
         else:
             out = D.tensor_ring_als(X, spec, n_iter_max=kw.get("n_iter_max", 1), random_state=seed, ls_solve=kw.get("ls_solve", "lstsq"))
         return [shp(f) for f in out.factors] + [tuple(out.shape), tuple(int(r) for r in out.rank)], out
@@ -822,6 +834,82 @@ def run_decomp(kind, shape, spec, seed, _spy=None, **kw):
         return [shp(out.weights)] + [shp(f) for f in out.factors], out
     raise KeyError(kind)
 
+
+class TrAlsSpy:
+    """harness-level interposition: the name `tl` bound inside tensorly.decomposition._tr_als is replaced for one call by a proxy that forwards every
+    attribute and logs the argument shapes of the lstsq / solve calls (the least-squares sub-problems of the ALS sweeps)"""
+
+    def __init__(self):
+        self.log, self.answers = [], []
+
+    def __enter__(self):
+        import importlib
+        self.mod = importlib.import_module("tensorly.decomposition._tr_als")
+        self.real = self.mod.tl
+        spy = self
+
+        class Proxy:
+            def __getattr__(self_, name):
+                v = getattr(spy.real, name)
+                if name in ("lstsq", "solve"):
+                    def wrapped(a, b, *args, **kw):
+                        spy.log.append((name, shp(a), shp(b)))
+                        return v(a, b, *args, **kw)
+                    return wrapped
+                return v
+        self.mod.tl = Proxy()
+        return self
+
+    def __exit__(self, *exc):
+        self.mod.tl = self.real
+        return False
+
+
+def tr_als_loop_cases(tier, rng):
+    """tensor_ring_als on every stopping path: shape x rank spec (int, closed lists, an OPEN list: rejected, 'same', fraction) x iteration cap x tol x callback x solver"""
+    quick = tier == "quick"
+    low = list(grid_shapes([2, 3], [1, 2, 3]))
+    shapes = (rng.sample(low, 12) if quick else low) + [tuple(rng.choice([1, 2, 3, 4]) for _ in range(o)) for o in (4, 4, 5) for _ in range(3 if quick else 6)]
+    for s in shapes:
+        n = len(s)
+        if prod(s) > 200:
+            continue
+        specs = [1, 2, 3, "same", 0.5, (2,) + (1,) * (n - 1) + (2,), (1,) + (2,) * (n - 1) + (1,),
+                 tuple([3] + [rng.choice([1, 2, 3]) for _ in range(n - 1)] + [3]), (1,) + (2,) * (n - 1) + (2,)]
+        varied = tuple([3] + [rng.choice([1, 2, 3]) for _ in range(n - 1)] + [3])
+        for sp in ((rng.sample(specs, 2) + [varied] if n >= 4 else rng.sample(specs, 3)) if quick else specs + [varied]):
+            for _ in range(1 if quick else 2):
+                yield dict(kind="DTrAls", shape=s, spec=sp,
+                           kw=dict(loop=True, n_iter_max=rng.choice([0, 1, 2, 3, 5]), tol=rng.choice([0, 1e10, 1e-3, 1e-6]),
+                                   cb_stop=rng.choice([None, None, 0, 1, 2, 99]), ls_solve=rng.choice(["lstsq", "lstsq", "normal_eq"])))
+
+
+def tr_als_loop_lit(cid, case, st, shapes, spy):
+    """(Gallina case, description of what was observable) for one run of tensor_ring_als against Model/StructureTrAls.v tr_als_run / tr_als_sweep_log"""
+    s, spec, kw = case["shape"], case["spec"], case["kw"]
+    n = len(s)
+    sweeps, with_log, decisions, obs = None, False, [], None
+    if st == "ok":
+        if len(spy.log) % n == 0:
+            sweeps = len(spy.log) // n
+        cb_present = kw.get("cb_stop") is not None
+        k_ = sweeps if sweeps is not None else (len(spy.answers) - 1 if cb_present else 0)
+        ans = [bool(a) for a in spy.answers[1:]] if cb_present else [False] * max(k_, 0)
+        for i in range(len(ans)):
+            conv = (i == len(ans) - 1) and len(ans) < kw["n_iter_max"] and not ans[i]
+            decisions.append((ans[i], conv))
+        first = spy.log[:n]
+        with_log = sweeps is not None and sweeps >= 1 and all(e[0] == "lstsq" for e in first)
+        obs = [tuple(x) for x in shapes[:n]]
+        if with_log:
+            for _, a, b in first:
+                obs += [a, b]
+    dl = "[" + "; ".join(f"({C.boolc(a)}, {C.boolc(b)})" for a, b in decisions) + "]"
+    lit = (f"({cid}%N, (DTrAlsLoop {C.nat_list(list(s))} {spec_lit(spec)} {C.boolc(kw['tol'] > 0)} {C.nat(kw['n_iter_max'])} {dl} {C.boolc(with_log)}), "
+           f"{shapes_lit(st, obs)})")
+    what = ("rejected" if st != "ok" else "no sweep" if kw["n_iter_max"] == 0 else "solver calls not observable" if not sweeps else
+            ("lstsq systems compared" if with_log else "normal equations"))
+    return lit, what
 
 
 class SvdSpy:
@@ -928,13 +1016,16 @@ def gen_cases(tier, rng):
     for s in vshapes:
         n = len(s)
         for rd in ROUNDINGS:
-            for f in (fracs if (not quick or rd == "round") else rng.sample(fracs, 2)):
+            # round 8 (thorough CPU budget): every fraction only for rounding='round'; floor / ceil get a sample (quick: 2, thorough: 4 fractions)
+            for f in (fracs if rd == "round" else rng.sample(fracs, 2 if quick else 4)):
                 yield dict(kind="VCp", shape=s, spec=f, kw=dict(rounding=rd))
                 yield dict(kind="VTr", shape=s, spec=f, kw=dict(rounding=rd))
                 yield dict(kind="VTucker", shape=s, spec=f, kw=dict(rounding=rd))
-                for const in ((False,) if quick and rd != "round" else (False, True)):
-                    for ao in ((True,) if quick and rd != "round" else (True, False)):
-                        yield dict(kind="VTt", shape=s, spec=f, kw=dict(rounding=rd, constant_rank=const, allow_overparametrization=ao))
+                combos = [(False, True), (False, False), (True, True), (True, False)]
+                if rd != "round":
+                    combos = combos[:1] if quick else [combos[0]] + rng.sample(combos[1:], 1)
+                for const, ao in combos:
+                    yield dict(kind="VTt", shape=s, spec=f, kw=dict(rounding=rd, constant_rank=const, allow_overparametrization=ao))
         for r in (1, 3):
             yield dict(kind="VCp", shape=s, spec=r, kw=dict(rounding="round"))
             yield dict(kind="VTucker", shape=s, spec=r, kw=dict(rounding="round"))
@@ -952,7 +1043,7 @@ def gen_cases(tier, rng):
                 yield dict(kind="VTtm", shape=s, spec=f, kw={})
     # ---- decompositions
     dshapes = list(grid_shapes([2, 3], [1, 2, 3] if quick else [1, 2, 3, 4])) + \
-        [tuple(rng.choice([1, 2, 3, 4]) for _ in range(o)) for o in (4, 4, 4, 5) for _ in range(4 if quick else 12)]
+        [tuple(rng.choice([1, 2, 3, 4]) for _ in range(o)) for o in (4, 4, 4, 5) for _ in range(4 if quick else 8)]
     for s in dshapes:
         n = len(s)
         ints = [1, 2, 5] if quick else [1, 2, 3, 5, 9]
@@ -1140,7 +1231,7 @@ ENTRY = {"VCp": "tensorly.cp_tensor.validate_cp_rank", "VTucker": "tensorly.tuck
          "VTtm": "tensorly.tt_matrix.validate_tt_matrix_rank", "DTt": "tensorly.decomposition.tensor_train",
          "DTtm": "tensorly.decomposition.tensor_train_matrix", "DTr": "tensorly.decomposition.tensor_ring",
          "DTucker": "tensorly.decomposition.tucker", "DCp": "tensorly.decomposition.parafac",
-         "DParafac2": "tensorly.decomposition.parafac2", "DTrAls": "tensorly.decomposition.tensor_ring_als",
+         "DParafac2": "tensorly.decomposition.parafac2", "DTrAls": "tensorly.decomposition.tensor_ring_als", "DTrAlsLoop": "tensorly.decomposition.tensor_ring_als",
          "DCmtf": "tensorly.decomposition.coupled_matrix_tensor_3d_factorization",
          "VTuckerFm": "tensorly.tucker_tensor.validate_tucker_rank"}
 
@@ -1175,12 +1266,12 @@ def tucker_fm_root(shape, fm, q):
 def vfm_cases(tier, rng):
     """shape x rank spec x rounding x fixed_modes (None, [], one, several in any order, all, duplicated, out of range)"""
     quick = tier == "quick"
-    shapes = list(grid_shapes([1, 2], [1, 2, 3, 5])) + rng.sample(list(grid_shapes([3], [1, 2, 3, 5, 8])), 14 if quick else 60) + \
-        [capped_shape(rng, o, [1, 2, 3, 4, 6, 9, 12], 4000) for o in (4, 4, 5, 6) for _ in range(3 if quick else 12)]
+    shapes = list(grid_shapes([1, 2], [1, 2, 3, 5])) + rng.sample(list(grid_shapes([3], [1, 2, 3, 5, 8])), 14 if quick else 40) + \
+        [capped_shape(rng, o, [1, 2, 3, 4, 6, 9, 12], 4000) for o in (4, 4, 5, 6) for _ in range(3 if quick else 8)]
     for s in shapes:
         n = len(s)
         fms = [None, [], [0], [n - 1], list(range(n)), list(range(n))[::-1]]
-        for _ in range(2 if quick else 5):
+        for _ in range(2 if quick else 3):
             k = rng.randrange(1, n + 1)
             fm = rng.sample(range(n), k)
             fms.append(fm)
@@ -2298,7 +2389,7 @@ def _run(chk, rng):
     t_start, c_start = time.time(), time.process_time()
     chk.notes.append(f"build+Print Assumptions: {t_start - chk.t0:.1f}s wall")
     cases, meta, skipped, timeouts = [], [], 0, 0
-    Q_BUDGET["complex_tucker"] = 10 if tier == "quick" else 120
+    Q_BUDGET["complex_tucker"] = 10 if tier == "quick" else 50
     for case in gen_cases(tier, rng):
         kind, s, spec, kw = case["kind"], case["shape"], case["spec"], case["kw"]
         case["seed"] = rng.randrange(10 ** 6)
@@ -2335,7 +2426,7 @@ def _run(chk, rng):
             chk.sample({"entry": ENTRY[kind], "shape": list(s), "rank": str(spec), "options": {k: str(v_) for k, v_ in kw.items()},
                         "outcome": st, "observed_shapes": [list(x) for x in shapes] if shapes else str(v)[:100]})
         if st == "ok" and out is not None:
-            if kind in ("DTt", "DTr", "DParafac2", "DTucker") and (cid % (16 if tier == "quick" else 10) == 0 or ((str(kw.get("data", "")).startswith("complex") or "svd" in kw) and cid % 3 == 0)):
+            if kind in ("DTt", "DTr", "DParafac2", "DTucker") and (cid % (16 if tier == "quick" else 14) == 0 or ((str(kw.get("data", "")).startswith("complex") or "svd" in kw) and cid % 3 == 0)):
                 for mk in q_cases_for(case, out, cid):
                     qid = len(cases)
                     cases.append(mk(qid))
@@ -2356,6 +2447,35 @@ def _run(chk, rng):
             if r:
                 msg, pred = r
                 chk.finding(ENTRY[kind], dict(kind=kind, shape=list(s), spec=(list(spec) if isinstance(spec, tuple) else spec), kw=kw, seed=case["seed"]), msg, pred,
+                            observed=[list(x) for x in shapes])
+    # ---- the loop of tensor_ring_als on every stopping path (Model/StructureTrAls.v): returned core shapes + the lstsq systems of the first sweep
+    for case in tr_als_loop_cases(tier, rng):
+        s, spec, kw = case["shape"], case["spec"], case["kw"]
+        case["seed"] = rng.randrange(10 ** 6)
+        c, skip = oracle_for(case)
+        if skip or zero_rank(case):
+            skipped += 1
+            continue
+        tspy = TrAlsSpy()
+        st, v = C.call_impl(run_decomp, "DTrAls", s, list(spec) if isinstance(spec, tuple) else spec, case["seed"], timeout=60, _spy=tspy, **kw)
+        if st != "ok" and str(v) == "timeout":
+            timeouts += 1
+            continue
+        if st != "ok" and str(v).startswith("LinAlgError") and "ingular" in str(v):
+            skipped += 1          # singular normal equations (data dependent); any other LinAlgError (incompatible dimensions) is a structural outcome
+            continue
+        shapes, out = v if st == "ok" else (None, None)
+        cid = len(cases)
+        lit, what_obs = tr_als_loop_lit(cid, case, st, shapes, tspy)
+        cases.append(lit)
+        meta.append(dict(kind="DTrAlsLoop", shape=s, spec=spec, kw=kw))
+        chk.count(key=("tr_als_loop", s, spec if not isinstance(spec, float) else ("frac", spec), tuple(sorted((k, str(v_)) for k, v_ in kw.items()))), nontrivial=prod(s) > 1)
+        chk.hist("entry_point", "DTrAlsLoop"); chk.hist("tr_als_loop", what_obs)
+        if st == "ok":
+            chk.cov["evaluations"] += 1
+            r = pred_structure(case, shapes, out)
+            if r:
+                chk.finding(ENTRY["DTrAls"], dict(kind="DTrAls", shape=list(s), spec=(list(spec) if isinstance(spec, tuple) else spec), kw=kw, seed=case["seed"]), r[0], r[1],
                             observed=[list(x) for x in shapes])
     # ---- validate_tucker_rank with fixed_modes (Model/StructureRanks.v)
     for case in vfm_cases(tier, rng):
@@ -2460,9 +2580,9 @@ def _run(chk, rng):
                 chk.finding("tensorly.decomposition." + tc["entry"], dict({k: (list(v) if isinstance(v, tuple) else v) for k, v in tc.items()}, tucker_case=True, hooi_pred=True), r[0], r[1])
         cx_ = str(tc.get("dtype", "")).startswith("complex")
         no_sweep_user_ = tc["init"] == "user" and (tc["n_iter_max"] == 0 or (tc["fixed"] is not None and len(set(tc["fixed"])) >= len(tc["shape"])))
-        if st == "ok" and not tc["mask"] and prod(tc["shape"]) <= (24 if cx_ else 36) and tc["seed"] % (3 if tier == "quick" else 2) == 0 \
+        if st == "ok" and not tc["mask"] and prod(tc["shape"]) <= (24 if cx_ else 36) and tc["seed"] % 3 == 0 \
                 and not no_sweep_user_ and not (tc["init"] == "random" and tc["n_iter_max"] == 0) \
-                and (not cx_ or tier != "quick" or tc["seed"] % 9 == 0):                    # quick: about a third of the complex outputs (~1 s of Coq time each)      # ~0.3 s of exact arithmetic each
+                and (not cx_ or tc["seed"] % (9 if tier == "quick" else 6) == 0):                    # quick: about a third of the complex outputs (~1 s of Coq time each)      # ~0.3 s of exact arithmetic each
             qid = len(cases)
             modes_ = list(range(len(tc["shape"]))) if tc["modes"] is None else list(tc["modes"])
             cases.append(qtucker_lit(qid, X, out[0], out[1], modes_, tol_orth=(2e-3 if (tc["svd"] == "symeig_svd" and tol_for(X) > TOL) else 1e-6 if tc["svd"] == "symeig_svd" else None)))
@@ -2589,6 +2709,7 @@ def _run(chk, rng):
         what = ("corr:C08 (Model/Structure.v cp_run vs control flow of the CP drivers)" if m["kind"] == "DNorm" else
                 "corr:C08 (Model/Structure.v partial_tucker / tucker_fixed vs the implementation's shapes)" if m["kind"] == "DTuckerX" else
                 "corr:C08 (Model/StructureHooi.v tt_calls / tr_calls vs the svd_interface calls of tensor_train / tensor_ring / tensor_train_matrix)" if m["kind"] == "SvdCalls" else
+                "corr:C08 (Model/StructureTrAls.v tr_als_run / tr_als_sweep_log vs the returned core shapes and the lstsq systems of the first sweep of tensor_ring_als)" if m["kind"] == "DTrAlsLoop" else
                 "corr:C08 (Model/StructureHooi.v hooi_run vs the call log of svd_interface / multi_mode_dot in tucker / partial_tucker)" if m["kind"] == "DHooi" else
                 "corr:C08 (loop skeleton read off the source does not satisfy desc_ok: some exit returns un-normalised factors)" if m["kind"] == "Desc" else
                 "corr:C08 (Model/StructureHooi.v p2o_run vs the _compute_projections calls of parafac2: number of calls / which call's output is returned)" if m["kind"] == "P2Calls" else
